@@ -574,4 +574,53 @@ Proof.
   destruct c; cbn [length]; split; intros; auto; try lia; discriminate.
 Qed.
 
+(* ------------------------------------------------------------------ the accessors never panic on character indices *)
+Lemma c2b_scan_length : forall t i, length (c2b_scan t i) = count_leads t.
+Proof. induction t as [|b t IH]; intros i; cbn [c2b_scan count_leads]; [reflexivity|]. destruct (is_lead b); cbn [length]; now rewrite IH. Qed.
+
+Lemma to_orig_byte_idx_total : forall o s ci, Inv o s -> ci <= count_leads (cur s) -> exists b, to_orig_byte_idx s ci = Some b.
+Proof.
+  intros o s ci HI Hci. pose proof HI as (_ & HB & _). apply BMap_length in HB.
+  unfold to_orig_byte_idx, mod_c2b.
+  destruct (nth_error (c2b_scan (cur s) 0 ++ [length (cur s)]) ci) as [p|] eqn:E.
+  - destruct (c2b_boundary (cur s) 0 ci p E) as [_ Hp]. rewrite Nat.sub_0_r in Hp. apply is_boundary_le in Hp.
+    destruct (nth_error (m2o s) p) eqn:E2; [eauto|]. apply nth_error_None in E2. lia.
+  - apply nth_error_None in E. rewrite app_length, c2b_scan_length in E. cbn in E. lia.
+Qed.
+
+(* ------------------------------------------------------------------ statements over reachable states *)
+Theorem begin_c_counts_codepoints : forall o s ci, wf_text o = true -> Reach o s -> ci <= count_leads (cur s) ->
+  exists b, to_orig_byte_idx s ci = Some b /\ is_boundary o b = true /\
+            to_orig_char_idx cfg s ci = Some (codepoints_before o b).
+Proof.
+  intros o s ci Hwf HR Hci. pose proof (reach_inv _ _ Hwf HR) as HI.
+  destruct (to_orig_byte_idx_total _ _ _ HI Hci) as [b Hb]. exists b. split; [auto|]. split.
+  - eapply to_orig_byte_idx_boundary; eauto.
+  - now apply begin_c_eq.
+Qed.
+
+Theorem char_slice_eq_byte_slice_reach : forall o s ci cj, wf_text o = true -> Reach o s ->
+  ci <= cj -> cj <= count_leads (cur s) ->
+  exists bi bj ai aj, to_orig_byte_idx s ci = Some bi /\ to_orig_byte_idx s cj = Some bj /\
+    to_orig_char_idx cfg s ci = Some ai /\ to_orig_char_idx cfg s cj = Some aj /\
+    cp_slice o ai aj = byte_slice o (bi, bj).
+Proof.
+  intros o s ci cj Hwf HR Hij Hcj. pose proof (reach_inv _ _ Hwf HR) as HI.
+  destruct (to_orig_byte_idx_total _ _ ci HI) as [bi Hbi]; [lia|].
+  destruct (to_orig_byte_idx_total _ _ cj HI) as [bj Hbj]; [lia|].
+  destruct (char_slice_eq_byte_slice _ _ _ _ _ _ HI Hbi Hbj) as (ai & aj & H1 & H2 & H3).
+  exists bi, bj, ai, aj. auto.
+Qed.
+
+Theorem surfaces_partition_reach : forall o s p, wf_text o = true -> Reach o s -> path_ok_b (cur s) p = true ->
+  partition_b o (map (map_range (m2o s)) p) = true /\
+  concat (map (byte_slice o) (map (map_range (m2o s)) p)) = o /\
+  (forall r, In r p -> orig_slice s (fst r) (snd r) = Some (byte_slice o (map_range (m2o s) r))).
+Proof.
+  intros o s p Hwf HR Hp. pose proof (reach_inv _ _ Hwf HR) as HI. split; [|split].
+  - now apply surfaces_partition.
+  - now apply concat_surfaces_eq_input.
+  - now apply surfaces_are_slices.
+Qed.
+
 End Cfg.
